@@ -1,6 +1,7 @@
 """Assumed contracts of the networkx calls used by the conversion code, over an abstract graph state."""
 import ast, z3
 from vf.spec import *
+from vf.sym import Unsupported
 JD = ListT(INT, tagged=True); JDS = ListT(JD)
 Name = Elem("Name"); P = PairT(INT, INT); LP = ListT(P)
 GRAPH = RecT("Graph", {"nodes": SetT(INT), "adj": SetT(P), "jd_has": SetT(INT), "jd": ArrT(INT, JD),
@@ -48,7 +49,8 @@ def install(reg):
             e = fresh(G, "G0"); F = z3.BoolVal(False)
             for f in ("nodes", "jd_has"): pc.append(G.getf(e.z, f) == z3.K(z3.IntSort(), F))
             for f in ("adj", "top_has", "mid_has"): pc.append(G.getf(e.z, f) == z3.K(P.sort(), F))
-            ex.assumptions.add("nx.Graph() is the empty graph"); return e
+            pc.extend(sym_wf(e.z))
+            ex.assumptions.add("nx.Graph() is the empty graph (abstract state: symmetric adjacency and edge-attribute maps)"); return e
         if node.func.attr in ("set_node_attributes", "set_edge_attributes"):
             root, steps = ex.path_of(node.args[0], st, pc); g = ex.read_path(st, root, steps).z
             d = ex.expr(node.args[1], st, pc); has_f, val_f = attr_fields[ast.unparse(node.args[2])]
@@ -74,3 +76,52 @@ def install(reg):
         return None
     reg.call_hooks.append(hook)
     for k in attr_fields: reg.consts[k] = Val(NONE, z3.BoolVal(True))
+    # ---- read side: G.edges(), G.nodes[n][ATTR], G.edges[e][ATTR], len(G.nodes())
+    ES = z3.Function("nx_edge_seq", GRAPH.sort(), LP.sort()); EIDX = z3.Function("nx_edge_idx", GRAPH.sort(), z3.IntSort(), z3.IntSort(), z3.IntSort())
+    g = z3.Const("g_", GRAPH.sort()); q, q2, u, v = z3.Ints("q_ q2_ u_ v_"); G = GRAPH
+    swap = lambda e: mk(P.snd(e), P.fst(e))
+    reg.axioms += [
+        ("G.edges().members", z3.ForAll([g, q], z3.Implies(z3.And(0 <= q, q < LP.len(ES(g))), z3.Select(G.getf(g, "adj"), LP.at(ES(g), q))), patterns=[LP.at(ES(g), q)]), "every element of G.edges() is an edge of G"),
+        ("G.edges().all", z3.ForAll([g, u, v], z3.Implies(z3.Select(G.getf(g, "adj"), mk(u, v)), z3.And(0 <= EIDX(g, u, v), EIDX(g, u, v) < LP.len(ES(g)),
+              z3.Or(LP.at(ES(g), EIDX(g, u, v)) == mk(u, v), LP.at(ES(g), EIDX(g, u, v)) == mk(v, u)))), patterns=[z3.Select(G.getf(g, "adj"), mk(u, v))]), "every edge of G is reported by G.edges() (in one orientation)"),
+        ("G.edges().once", z3.ForAll([g, q, q2], z3.Implies(z3.And(0 <= q, q < q2, q2 < LP.len(ES(g))), z3.And(LP.at(ES(g), q) != LP.at(ES(g), q2), LP.at(ES(g), q) != swap(LP.at(ES(g), q2)))),
+              patterns=[z3.MultiPattern(LP.at(ES(g), q), LP.at(ES(g), q2))]), "G.edges() reports each undirected edge once"),
+        ("G.edges().len", z3.ForAll([g], LP.len(ES(g)) >= 0, patterns=[ES(g)]), "")]
+    reg.native_specfuns["edge_seq"] = dict(smt=lambda ex, gg: Val(LP, ES(gg.z)), rt=lambda gg: list(gg.edges()))
+    reg.native_specfuns["edge_idx"] = dict(smt=lambda ex, gg, a, b: Val(INT, EIDX(gg.z, a.z, b.z)), rt=None)
+    def graph_of(ex, node, st, pc):
+        try: v = ex.expr(node, st, list(pc))
+        except Exception: return None
+        return v if isinstance(v, Val) and v.t == GRAPH else None
+    def read_hook(ex, node, st, pc):
+        # list(X.edges()) / X.edges()
+        if isinstance(node, ast.Call) and isinstance(node.func, ast.Name) and node.func.id == "list" and len(node.args) == 1: inner = node.args[0]
+        else: inner = node
+        if isinstance(inner, ast.Call) and isinstance(inner.func, ast.Attribute) and inner.func.attr == "edges" and not inner.args and not inner.keywords:
+            gv = graph_of(ex, inner.func.value, st, pc)
+            if gv is not None:
+                ex.assumptions.add("nx.Graph.edges(): a duplicate-free enumeration of the undirected edges, the same for an unmodified graph"); return Val(LP, ES(gv.z))
+        # len(X.nodes())
+        if isinstance(node, ast.Call) and isinstance(node.func, ast.Name) and node.func.id == "len" and len(node.args) == 1:
+            a = node.args[0]
+            if isinstance(a, ast.Call) and isinstance(a.func, ast.Attribute) and a.func.attr == "nodes" and not a.args:
+                gv = graph_of(ex, a.func.value, st, pc)
+                if gv is not None:
+                    if "ORDER" not in st.env: raise Unsupported("len(G.nodes()) needs the ghost ORDER (node set = 0..ORDER-1)")
+                    N = st.env["ORDER"].z; x = fresh_int("x")
+                    ex.oblige(f"requires@call.len(G.nodes()).nodes_are_0..ORDER-1@{node.lineno}", "requires@call", pc, z3.And(N >= 0, z3.ForAll([x], z3.Select(G.getf(gv.z, "nodes"), x) == z3.And(0 <= x, x < N))), node)
+                    ex.assumptions.add("len(G.nodes()) == n when the node set is exactly {0..n-1} (cardinality)"); return Val(INT, N)
+        # X.nodes[n][ATTR] / X.edges[e][ATTR]
+        if isinstance(node, ast.Subscript) and isinstance(node.value, ast.Subscript) and isinstance(node.value.value, ast.Attribute) and node.value.value.attr in ("nodes", "edges") \
+                and ast.unparse(node.slice) in attr_fields:
+            gv = graph_of(ex, node.value.value.value, st, pc)
+            if gv is None: return None
+            has_f, val_f = attr_fields[ast.unparse(node.slice)]; key = ex.expr(node.value.slice, st, pc)
+            want_nodes = has_f == "jd_has"
+            if (node.value.value.attr == "nodes") != want_nodes: raise Unsupported("node attribute read through edges or vice versa")
+            present = z3.And(z3.Select(G.getf(gv.z, "nodes" if want_nodes else "adj"), key.z), z3.Select(G.getf(gv.z, has_f), key.z))
+            ex.branch_exc(pc, z3.Not(present), "KeyError", node)
+            ex.assumptions.add("G.nodes[n][name] / G.edges[e][name] return the stored attribute and raise KeyError when the node/edge or the attribute is absent")
+            return Val(GRAPH.fs[val_f].v, z3.Select(G.getf(gv.z, val_f), key.z))
+        return None
+    reg.call_hooks.append(read_hook)
